@@ -72,6 +72,22 @@ def grid(tier, seed):
         c = (rnd.choice(list(TAGS)), rnd.choice(list(FT)), rnd.choice(['i8', 'i16', 'i32', 'i64', 'u8', 'u16', 'u32']), rnd.choice([-20, -12, -8, -4, -2, -1, 1, 3]))
         if c not in ffixed:
             ffixed.append(c)
+    # the finest exponents of each width: 2^-ED meets the width of the representation / of int / of long long (the power
+    # power_value<F, -ED> that scales the source and the half unit power_value<F, ED - 1> must have the right sign and
+    # value there).  64-bit: every tag x every format at -63 and -62; the other corners: every tag, formats rotate.
+    for ed in (-63, -62):
+        for t in TAGS:
+            for f in FT:
+                ffixed.append((t, f, 'i64', ed))
+    corners = [('u64', -64), ('u64', -63), ('i64', -61), ('i32', -31), ('i32', -30), ('u32', -32), ('u32', -31), ('i16', -15), ('u16', -16), ('i8', -7), ('u8', -8)]
+    if tier != 'quick':
+        corners += [('u64', -62), ('i64', -64), ('i64', -65), ('u64', -65), ('i32', -32), ('i32', -33), ('u32', -33), ('i32', -63), ('u32', -64), ('i16', -31), ('i8', -63), ('u8', -64)]
+    fl = list(FT)
+    for j, (d, ed) in enumerate(corners):
+        for i, t in enumerate(TAGS):
+            c = (t, fl[(i + j + seed) % 3], d, ed)
+            if c not in ffixed:
+                ffixed.append(c)
     for (t, f, d, ed) in ffixed:
         calls.append('f2s<%s, %s, %s, %d>(rng);' % (TAGS[t], FT[f], CT[d], ed))
     return calls
